@@ -57,7 +57,13 @@ def derived(ctx, dn):
         prog, fam = gen.long_timeline_program(rng, directed), dict(nodes="int")
     else:
         prog, fam = gen.random_program(rng, lambda: Model(directed, True), directed=directed,
-                                       family=rng.choice(("int", "str")), tfamily="small", with_nodes=False)
+                                       family=rng.choice(("int", "str")), tfamily=rng.choice(("small", "neg")),
+                                       with_nodes=False)
+    if rng.random() < 0.2:
+        # an interval that ends exactly at instant 0 from a negative start, on a fresh pair
+        prog = [("add", "z0" if fam.get("nodes") == "str" else 900, "z1" if fam.get("nodes") == "str" else 901,
+                 -rng.randint(1, 4), 1)] + list(prog)
+        ctx.cell("src:interval-ending-at-0")
     G, m, ok = driver.build_accepted(dn, prog, directed)
     if not ok or not m.nontrivial():
         ctx.skip("derived: source graph not built")
@@ -72,6 +78,9 @@ def derived(ctx, dn):
     expected = {"time_slice": lambda: c06.slice_model(m, a, b)}
     made.append(("time_slice", lambda: G.time_slice(a, b), directed))
     made.append(("time_slice(all)", lambda: G.time_slice(ids[0] - 1, ids[-1] + 1), directed))
+    if ids[0] < 0 <= ids[-1]:
+        made.append(("time_slice(to0)", lambda: G.time_slice(ids[0], 0), directed))
+        expected["time_slice(to0)"] = lambda: c06.slice_model(m, ids[0], 0)
     expected["time_slice(all)"] = lambda: c06.slice_model(m, ids[0] - 1, ids[-1] + 1)
     if directed:
         made.append(("to_undirected", lambda: G.to_undirected(), False))
@@ -98,6 +107,11 @@ def derived(ctx, dn):
         from dynetx.readwrite import json_graph
         return json_graph.node_link_graph(json.loads(json.dumps(json_graph.node_link_data(G))))
     made += [("read_snapshots", rs, directed), ("read_interactions", ri, directed), ("node_link_graph", nl, directed)]
+    # snapshot files and node-link data carry the presence relation itself: the timelines read back are exactly
+    # the source's (the event log written by write_interactions is subject to known finding D-E: not compared)
+    from .. import iohelp
+    expected["read_snapshots"] = lambda: iohelp.retype(m)
+    expected["node_link_graph"] = lambda: iohelp.retype(m)
     for name, f, d in made:
         ctx.case["constructor"] = name
         try:
@@ -154,12 +168,19 @@ def run(ctx, dn):
         _hist.exhaustive(ctx, dn, battery, 2, two_pairs_len=2)
         t_end = ctx.time_left() * 0.45
         _hist.second_life(ctx, dn, battery, 6)
+        _hist.long_second_life(ctx, dn, battery)
+        _hist.around_zero(ctx, dn, battery, 2)
+        _hist.stress(ctx, dn, battery, 300, every=100, base=2 ** 60)
         _hist.long_timelines(ctx, dn, battery, 4)
         _hist.random_histories(ctx, dn, battery, until=t_end, clears=True)
         _hist.stress(ctx, dn, battery, 1500, every=100)
     else:
         _hist.exhaustive(ctx, dn, battery, 3, two_pairs_len=3)
         _hist.second_life(ctx, dn, battery, 60)
+        for _ in range(4):
+            _hist.long_second_life(ctx, dn, battery)
+        _hist.around_zero(ctx, dn, battery, 3)
+        _hist.stress(ctx, dn, battery, 2000, every=200, base=2 ** 60)
         _hist.long_timelines(ctx, dn, battery, 40)
         _hist.random_histories(ctx, dn, battery, until=ctx.time_left() * 0.4, clears=True)
         for _ in range(3):
